@@ -378,3 +378,12 @@ Example C13_lu_factor_example :
   lu_factor 3 S [(0, 0); (2, 1); (1, 2)]%nat = None /\
   lu_kernel 3 S [(0, 0); (2, 1)]%nat = Some ([1%nat], [2%nat], [[0]]).
 Proof. vm_compute. repeat split. Qed.
+
+(* the model agrees with the library on a recorded instance: with the pivot order of the dumped permutations the verified
+   elimination reproduces the dumped factor_work (normal form), which passes check_repr *)
+Example C13_lu_factor_recorded :
+  match lu_factor 3 ex_lu_B (combine (f_rperm ex_lu_dump) (f_cperm ex_lu_dump)) with
+  | Some r => repr_same_lu r ex_lu_dump && check_repr ex_lu_dump ex_lu_B
+  | None => false
+  end = true.
+Proof. vm_compute. reflexivity. Qed.
